@@ -9,7 +9,7 @@ RULE = ('exhaustive: every non-constant series over {-2..2} up to length 6 (quic
 TRUSTED = [
     'Coq 8.16.1 kernel + vm_compute',
     'declarative model coq/model/M_peaks.v (peaks = filter of indices by a local test; selection by parity as coded); tie = exhaustive + random correspondence of this run (model/K_peaks.v)',
-    'literal statement-by-statement transcription of the ediff1d/where/take pipeline coq/model/M_peaks_pipeline.v, PROVED equal to the declarative model for every non-constant series over R (props/Prop_C11_pipeline.v); the same cases are also compared with it (chk_peaks_pipeline, chk_clean_pipeline), so what remains trusted is reading the transcription against the Python source',
+    'literal statement-by-statement transcription of the ediff1d/where/take pipeline coq/model/M_peaks_pipeline.v, PROVED equal to the declarative model for every non-constant series over R (props/Prop_C11_pipeline.v); the same cases are also compared with it (chk_peaks_pipeline, chk_clean_pipeline), and the transcription is tied to the Python SOURCE TEXT by translator/py2coq_c11.py (fail-closed ast translator, re-run on every check -> coq/gen/Gen_c11.v) + props/Prop_C11_source.v (generated = transcription for every input and number type, axiom-free); what remains trusted there: the Gallina definitions of the numpy primitives, the readings fixed in the translator (list T / list nat, truncated index subtraction, nth-totalised v[0]) and the translator itself',
     'float products that underflow (|d1*d2| < 2^-1074) are outside every generator (DESIGN 2.2)',
     'Python harness',
 ]
@@ -22,6 +22,21 @@ def nontrivial(xs):
     return bool(np.any(d[1:] * d[:-1] < 0) or np.any(np.diff(xs) == 0))
 
 
+def regen_c11():
+    """re-translate eqsig/fns/peaks_and_crossings.py (clean_out_non_changing, determine_indices_of_peaks_for_cleaned_array,
+    get_peak_array_indices, get_zero_crossings_array_indices, _argmax_abs_w_sign, get_switched_peak_array_indices, get_n_cyc_array)
+    into coq/gen/Gen_c11.v (fail closed): the `C11_*_is_source` / `C12_*_is_source` theorems of Prop_C11_source are then re-proved
+    against the code that is in the repo now"""
+    import os, sys
+    try:
+        sys.path.insert(0, os.path.join(core.VERIF, 'translator'))
+        import py2coq_c11
+        py2coq_c11.regenerate(repo=core.REPO)
+    except Exception as e:
+        return 'py2coq_c11: %s: %s' % (type(e).__name__, e)
+    return None
+
+
 def as_pipeline(cases):
     """the same cases, labelled for the comparison with the literal pipeline transcription"""
     return [Case(c.coq, c.replay, c.site, nontrivial=c.nontrivial, klass=c.klass + '/pipeline') for c in cases]
@@ -31,6 +46,7 @@ def run(rep, rng, tier):
     from eqsig.fns.peaks_and_crossings import get_peak_array_indices, get_n_cyc_array, clean_out_non_changing
     rep.prove('Prop_C11')
     rep.prove('Prop_C11_pipeline')
+    rep.prove('Prop_C11_source', gen_failed=regen_c11())
     L = 6 if tier == 'quick' else 8
     pk, pkq, nc, cl = [], [], [], []
 
